@@ -52,3 +52,12 @@ pub fn par_for<W, R: Send>(
         hs.into_iter().map(|h| h.join().expect("worker thread died")).collect()
     })
 }
+
+/// Debug aid: `VERIF_PART=<substring>` restricts a check to the sub-explorations whose name
+/// contains the substring (never set by the registered commands).
+pub fn part_enabled(name: &str) -> bool {
+    match std::env::var("VERIF_PART") {
+        Ok(p) if !p.is_empty() => name.contains(&p),
+        _ => true,
+    }
+}
